@@ -174,3 +174,76 @@ func init() {
 		addOpsAssumptions(c)
 	})
 }
+
+func componentKeep(rule, construct string) bool { return true }
+
+func init() {
+	register("C12", "loss functions return the defined scalar", func(c *Ctx) {
+		c.R.Rule("A2.formula: the real Compute methods are interpreted over abstract tensors (Tensor API summarised by the spec); the scalar's element expression must have the normal form of the definition: MSE mean((p-t)^2); BCE mean(-(t'log p' + (1-t')log(1-p'))); CE mean_b(-Σ_c t' log p'), with t' clipped to [0,1] and p' to [1e-12, 1-1e-12]")
+		c.R.Rule("A1.shape: result is rank 0 for every batch/class size (1 or symbolic); A3: interval evaluation over predictions/targets in [-1e6,1e6] is finite and non-negative")
+		c.R.Rule("A4.pre: nil inputs, wrong ranks and mismatched sizes are rejected with an error, never a panic; tracked and untracked inputs give the same expression")
+		c.R.Rule("S3.gctx-read: no function of the tensor implementation reads a gradient context outside the two public accessors, so loss values cannot depend on tracking")
+		rules.S3Reads(c.P, c.A, c.R)
+		e := engine.NewOpEngine(c.P, c.A)
+		e.RunLossChecks()
+		fileOps(c, e, OpFilter{Keep: componentKeep})
+		c.R.Count("component.abstract_paths", e.Paths)
+		c.R.Min("component.abstract_paths", 30)
+		for fn := range e.Funcs {
+			c.R.Func(fn)
+		}
+		c.R.NotDecide("floating-point rounding; magnitudes beyond 1e6")
+		addOpsAssumptions(c)
+	})
+}
+
+func componentCheck(run func(e *engine.OpEngine, c *Ctx), minPaths int) func(c *Ctx) {
+	return func(c *Ctx) {
+		e := engine.NewOpEngine(c.P, c.A)
+		run(e, c)
+		fileOps(c, e, OpFilter{Keep: componentKeep})
+		c.R.Count("component.abstract_paths", e.Paths)
+		c.R.Min("component.abstract_paths", minPaths)
+		for fn := range e.Funcs {
+			c.R.Func(fn)
+		}
+		addOpsAssumptions(c)
+	}
+}
+
+func init() {
+	register("C14", "activations compute their defining function", componentCheck(func(e *engine.OpEngine, c *Ctx) {
+		c.R.Rule("A2.formula: Forward of each activation, interpreted over abstract tensors, has the normal form of its definition (Relu max(0,x); LeakyRelu max(0,x)+m·min(0,x) for symbolic m, the nil-config default 0.01 and constants 0, -0.5, 1, 1.5; Sigmoid 1/(1+e^-x); Tanh; Softmax e^x/Σ_dim e^x for EVERY dim < rank)")
+		c.R.Rule("A1.shape: the result has the input's shape for ranks 0..bound and every unit/non-unit pattern; Softmax: Σ along Dim of the result normalises to exactly 1, result interval non-negative; rank <= Dim and negative Dim are rejected")
+		c.R.Rule("A4.pre: no input / two inputs / nil input are rejected with an error, never a panic")
+		r := 3
+		if c.Tier == "thorough" {
+			r = 5
+		}
+		e.RunActivationChecks(r)
+		c.R.NotDecide("overflow of e^x for |x| > 700; floating-point rounding")
+	}, 60))
+	register("C17", "SGD update subtracts learning-rate times gradient", componentCheck(func(e *engine.OpEngine, c *Ctx) {
+		c.R.Rule("A2.formula: after Update the tensor behind the pointer has element expression w - lr·g (lr symbolic, nil-config default 0.01, 0 and negative), same shape, ranks 0..bound")
+		c.R.Rule("C10.mutation/C17.replaced: Update stores only through the given pointer; the previous tensor object and its gradient are not written")
+		c.R.Rule("S7: nil pointer, nil tensor and missing gradient return an error and replace nothing")
+		r := 3
+		if c.Tier == "thorough" {
+			r = 5
+		}
+		e.RunSGDChecks(r)
+	}, 30))
+	register("C19", "accuracy equals matched over total", componentCheck(func(e *engine.OpEngine, c *Ctx) {
+		c.R.Rule("A2.formula: after any sequence of accepted batches (symbolic sizes) total = Σ sizes, correct = Σ_batches Σ_i [|p_i - t_i| <= τ], Result = correct/total and 0 before any batch: additive updates make the value independent of the partition")
+		c.R.Rule("S7: rejected calls (nil, wrong rank, mismatched lengths), also interleaved between accepted ones, leave both counters unchanged")
+		e.RunAccuracyChecks()
+		c.R.NotDecide("0 <= correct <= total relies on the Eq mask being 0/1 (C03)")
+	}, 10))
+	register("C16", "FC layer is an affine map with live parameters (forward, pointers, validation)", componentCheck(func(e *engine.OpEngine, c *Ctx) {
+		c.R.Rule("A2.formula: Forward, interpreted with W, B replaced through the Weights() pointers by non-uniform leaves, yields y[b][o] = W[o]·Σ_d x[b][d] + B[o] with shape [batch, Outputs] for symbolic and unit batch/feature/output sizes")
+		c.R.Rule("S12: Weights() returns pointers to the layer's own Weight and Bias fields (replacements reach the next Forward), both trainable")
+		c.R.Rule("A4.pre / A1.shape: default initialisation gives tracked parameters of shape [Outputs]; invalid configs and inputs are rejected with an error")
+		e.RunFCChecks()
+		c.R.NotDecide("gradients of W, B, x: compositional (C01, C02, C07); the weight gradient inherits known finding D2 (Broadcast backward averages)")
+	}, 10))
+}
